@@ -20,7 +20,7 @@ from vlib.harness import InstanceResult, jsonable
 PROPERTY = 'C19'
 TECHNIQUE = 'symbolic execution of the real regularizers on z3-real costs/targets/strengths and integer schedule positions; each clause an unsat query (NRA, schedule enumerated when z3 stalls)'
 FUNCTIONS_ENCODED = ['BaseRegularizer.__init__/__call__', 'DUCCIO.__init__', 'DUCCIO.__call__ (lazy strength initialisation, ramp, penalty sum)']
-BOUNDS = {'quick': '1..3 metrics, n_epochs 1..50, 0 <= epoch <= n_epochs (symbolic, enumerated on NRA time-out), costs/targets/strengths arbitrary reals (strengths > 0), two consecutive calls on one instance',
+BOUNDS = {'quick': '1..3 metrics, n_epochs 1..50, 0 <= epoch <= n_epochs (symbolic, enumerated on NRA time-out), costs/targets/strengths arbitrary reals (strengths > 0), two consecutive calls on one instance; integer-typed target tensors (k=2)',
           'thorough': 'same with epochs beyond the schedule (epoch <= 2 n_epochs) and up to three consecutive calls; real PIT model for BaseRegularizer'}
 OUTSIDE = ['float32 rounding/overflow of the products', 'derived strengths when a cost equals or is below its target at the first call (outside the "positive final strengths" precondition; reported as note)',
            'n_epochs = 0']
